@@ -3,7 +3,9 @@
   GC_Ideal_Size, GC_Rehash, GC_Resize_More/Less, GC_Set_Ptr, GC_Mem_Ptr, GC_Rem_Ptr (NULL test, pending-list strike-off,
   backward shift), GC_Mark_Item (bounds filter + probe + mark bit), GC_Unmark, the prologue and the root loop of GC_Mark,
   GC_Sweep (in-place compaction, mark clearing, shrink, finalisation of the pending list with removals issued by
-  destructors), GC_Set, GC_Rem, GC_Del (unmark + sweep), start/stop.
+  destructors), GC_Set, GC_Rem, GC_Del (unmark + sweep), start/stop; and the same with destructors that leave by an
+  exception (`execR`, `finaliseLoopR`, `gcSweepR`, `gcSetR`, `gcRemR`: no frame of GC.c has a handler — what each frame skips
+  when the exception unwinds through it).
   Core Lean only.  The slot array is `RH.Slots Nat Payload n` with `n` a field of the state (sigma type), so the loops of
   Cello/RH.lean and the lemmas of CelloProofs/Lemmas/RH*.lean apply to the executed model directly.
 
@@ -326,6 +328,107 @@ def gcDel (c : Cfg) (K : Nat → List Nat) (r : Reg) : Option (Reg × List Nat) 
 
 def gcStart (r : Reg) : Reg := { r with running := true }
 def gcStop (r : Reg) : Reg := { r with running := false }
+
+/-! ### destructors that raise
+
+`R p = true`: the destructor of `p`, after the deletions `K p`, leaves by an exception (a library example: `File_Del` →
+`File_Close` throws IOError when `fclose` fails).  No function of GC.c has a handler, so the exception unwinds through every
+frame of the collector that is active: `dealloc` of the object is not reached; an enclosing destructor does not continue (and
+its object is not deallocated either); an enclosing `GC_Rem` skips `GC_Resize_Less` and the threshold update; the release loop
+of `GC_Sweep` is left at once and `free(gc->freelist); gc->freelist = NULL; gc->freenum = 0` is skipped — the pending list
+stays as it is (known finding KF-C17-dtor-raise).  The third component of a result says whether an exception is propagating.
+With `R = fun _ => false` these are `exec` / `finaliseLoop` / `gcSweep` / `gcSet` (`execR_noRaise`, … in
+Lemmas/RegistryRaise.lean); the driver runs these. -/
+
+/-- `GC_Rem` / finalisation with raising destructors -/
+def execR (c : Cfg) (K : Nat → List Nat) (R : Nat → Bool) : (fuel : Nat) → Reg → Cmd → Option (Reg × List Nat × Bool)
+  | 0, _, _ => none
+  | fuel+1, r, .fin p =>
+    match (K p).foldl (fun (acc : Option (Reg × List Nat × Bool)) y =>
+        match acc with
+        | none => none
+        | some (r', t, ex) =>
+          if ex then some (r', t, true)          -- unwinding: the rest of the destructor does not run
+          else
+            match execR c K R fuel r' (.rem y) with
+            | none => none
+            | some (r'', t', ex') => some (r'', t ++ t', ex')) (some (r, [], false)) with
+    | none => none
+    | some (r', t, ex) =>
+      if ex then some (r', t, true)              -- `dealloc` is not reached
+      else if R p then some (r', t, true)        -- the destructor itself raises, after its deletions
+      else some (r', t ++ [p], false)
+  | fuel+1, r, .rem x =>
+    if !r.running then some (r, [], false)
+    else
+      match remPtr c r x with
+      | none => none
+      | some (r1, fi) =>
+        match (match fi with
+               | none => some (r1, [], false)
+               | some p => execR c K R fuel r1 (.fin p)) with
+        | none => none
+        | some (r2, t, ex) =>
+          if ex then some (r2, t, true)          -- GC_Resize_Less and the threshold update are skipped
+          else
+            match resizeLess c r2 with
+            | none => none
+            | some r3 => some ({ r3 with mitems := c.mitemsOf r3.nitems }, t, false)
+
+/-- `GC_Rem` with raising destructors -/
+def gcRemR (c : Cfg) (K : Nat → List Nat) (R : Nat → Bool) (r : Reg) (x : Nat) : Option (Reg × List Nat × Bool) :=
+  execR c K R (nestFuel r) r (.rem x)
+
+/-- last loop of GC_Sweep with raising destructors: left at the first exception -/
+def finaliseLoopR (c : Cfg) (K : Nat → List Nat) (R : Nat → Bool) : (todo : Nat) → (i : Nat) → Reg → List Nat → Option (Reg × List Nat × Bool)
+  | 0, _, r, t => some (r, t, false)
+  | todo+1, i, r, t =>
+    match r.pending[i]? with
+    | some (some p) =>
+      let r1 := { r with pending := r.pending.setIfInBounds i none }
+      match execR c K R (nestFuel r1 + 1) r1 (.fin p) with
+      | none => none
+      | some (r2, t', ex) =>
+        if ex then some (r2, t ++ t', true)
+        else finaliseLoopR c K R todo (i+1) r2 (t ++ t')
+    | _ => finaliseLoopR c K R todo (i+1) r t
+
+/-- `GC_Sweep` with raising destructors: when the release loop is left by an exception the pending list is neither freed nor
+    reset — `freelist[0..freenum)` keeps the words of the objects not yet finalised -/
+def gcSweepR (c : Cfg) (K : Nat → List Nat) (R : Nat → Bool) (r : Reg) : Option (Reg × List Nat × Bool) :=
+  match sweepLoop (2 * r.n + 1) r.slots 0 #[] r.nitems with
+  | none => none
+  | some (s, pend, ni) =>
+    match resizeLess c { r with slots := clearMarks s, nitems := ni, pending := pend } with
+    | none => none
+    | some r1 =>
+      let r2 := { r1 with mitems := c.mitemsOf r1.nitems }
+      match finaliseLoopR c K R r2.pending.size 0 r2 [] with
+      | none => none
+      | some (r3, t, ex) => if ex then some (r3, t, true) else some ({ r3 with pending := #[] }, t, false)
+
+/-- `GC_Set` with raising destructors (an exception out of the collection it triggers leaves `alloc` / `new`: the new object
+    is registered already) -/
+def gcSetR (c : Cfg) (K : Nat → List Nat) (R : Nat → Bool) (r : Reg) (p : Nat) (root : Bool) (marks : List Nat) :
+    Option (Reg × List Nat × Bool) :=
+  if !r.running then some (r, [], false)
+  else
+    match resizeMore c { r with nitems := r.nitems + 1, maxptr := if p > r.maxptr then p else r.maxptr,
+                                minptr := if p < r.minptr then p else r.minptr } with
+    | none => none
+    | some r1 =>
+      match setPtr c r1.slots p root with
+      | none => none
+      | some s =>
+        let r2 := { r1 with slots := s }
+        if r2.nitems > r2.mitems then
+          match gcMark c r2 marks with
+          | none => none
+          | some r3 => gcSweepR c K R r3
+        else some (r2, [], false)
+
+/-- no destructor raises -/
+def noR : Nat → Bool := fun _ => false
 
 /-! ### executable invariant (evaluated by the driver on every dumped state) -/
 
